@@ -16,6 +16,7 @@ def codec(run, P):
 def stream(run, P):
     from rules import r_stream
     r_stream.run_adv(run, P)
+    r_stream.run_phase(run, P)
     r_stream.run_cap(run, P)
 def uri(run, P):
     from rules import r_lenread, r_uriclass
